@@ -472,6 +472,12 @@ impl GitignoreBuilder {
                 is_absolute = true;
             }
         }
+        // A line with nothing left after its prefix, such as a lone `!`, has
+        // an empty pattern. Like git, treat it as matching nothing instead of
+        // letting the `**/` prefix below turn it into "match everything".
+        if line.is_empty() {
+            return Ok(self);
+        }
         // If it ends with a slash, then this should only match directories,
         // but the slash should otherwise not be used while globbing.
         if line.as_bytes().last() == Some(&b'/') {
